@@ -441,6 +441,9 @@ func (f Slice) locate(pp Expr, data any, rest Expr, max int) (locs []Expr) {
 			if len(rest) == 0 { // last one
 				for i := start; i < end; i += step {
 					locs = locateAppendFrag(locs, pp, Nth(i))
+					if 0 < max && max <= len(locs) {
+						break
+					}
 				}
 			} else {
 				cp := append(pp, nil) // place holder
@@ -456,6 +459,9 @@ func (f Slice) locate(pp Expr, data any, rest Expr, max int) (locs []Expr) {
 			if len(rest) == 0 { // last one
 				for i := start; end < i; i += step {
 					locs = locateAppendFrag(locs, pp, Nth(i))
+					if 0 < max && max <= len(locs) {
+						break
+					}
 				}
 			} else {
 				cp := append(pp, nil) // place holder
@@ -477,6 +483,9 @@ func (f Slice) locate(pp Expr, data any, rest Expr, max int) (locs []Expr) {
 			if len(rest) == 0 { // last one
 				for i := start; i < end; i += step {
 					locs = locateAppendFrag(locs, pp, Nth(i))
+					if 0 < max && max <= len(locs) {
+						break
+					}
 				}
 			} else {
 				cp := append(pp, nil) // place holder
@@ -492,6 +501,9 @@ func (f Slice) locate(pp Expr, data any, rest Expr, max int) (locs []Expr) {
 			if len(rest) == 0 { // last one
 				for i := start; end < i; i += step {
 					locs = locateAppendFrag(locs, pp, Nth(i))
+					if 0 < max && max <= len(locs) {
+						break
+					}
 				}
 			} else {
 				cp := append(pp, nil) // place holder
@@ -513,6 +525,9 @@ func (f Slice) locate(pp Expr, data any, rest Expr, max int) (locs []Expr) {
 			if len(rest) == 0 { // last one
 				for i := start; i < end; i += step {
 					locs = locateAppendFrag(locs, pp, Nth(i))
+					if 0 < max && max <= len(locs) {
+						break
+					}
 				}
 			} else {
 				cp := append(pp, nil) // place holder
@@ -528,6 +543,9 @@ func (f Slice) locate(pp Expr, data any, rest Expr, max int) (locs []Expr) {
 			if len(rest) == 0 { // last one
 				for i := start; end < i; i += step {
 					locs = locateAppendFrag(locs, pp, Nth(i))
+					if 0 < max && max <= len(locs) {
+						break
+					}
 				}
 			} else {
 				cp := append(pp, nil) // place holder
@@ -557,6 +575,9 @@ func (f Slice) locate(pp Expr, data any, rest Expr, max int) (locs []Expr) {
 							if 0 < max && max <= len(locs) {
 								break
 							}
+							if 0 < max && max <= len(locs) {
+								break
+							}
 						}
 					}
 				} else {
@@ -578,6 +599,9 @@ func (f Slice) locate(pp Expr, data any, rest Expr, max int) (locs []Expr) {
 						rv := rd.Index(i)
 						if rv.CanInterface() {
 							locs = locateAppendFrag(locs, pp, Nth(i))
+							if 0 < max && max <= len(locs) {
+								break
+							}
 							if 0 < max && max <= len(locs) {
 								break
 							}
